@@ -163,6 +163,7 @@ type Exec struct {
 	extMemo    map[[2]int][2]*smt.Term
 	quantNames map[int]*smt.Term
 	macroEqs   []macroEq
+	FrameSites int // write sites examined by the frame check
 	curRecBase map[string]int
 	funcsMemo  map[*ssa.Function]bool
 	mu         sync.Mutex
